@@ -310,8 +310,12 @@ func (e *ssaEval) wrapInt(t types.Type, i int64) int64 {
 func term(op string, args ...sv) sv {
 	// bit operations are associative and commutative; + and * are only commutative here
 	// (floating-point addition and multiplication do not associate)
-	assoc := op == "|" || op == "&" || op == "^"
-	ac := assoc || op == "+" || op == "*"
+	base := op
+	for _, tag := range []string{"u8", "i8", "u16", "i16", "u32", "i32"} {
+		base = strings.TrimSuffix(base, tag)
+	}
+	assoc := base == "|" || base == "&" || base == "^"
+	ac := assoc || base == "+" || base == "*"
 	var flat []sv
 	for _, a := range args {
 		if !a.known() {
@@ -415,6 +419,11 @@ func (e *ssaEval) instr(fr *frame, ins ssa.Instruction) {
 		}
 	case *ssa.Convert:
 		a := e.val(fr, x.X)
+		if a.k == svSym && intSize(x.Type()) > 0 && intSize(x.X.Type()) > intSize(x.Type()) {
+			// a narrowing conversion of a symbolic value truncates
+			set(x, term(narrowTag(x.Type()), a))
+			return
+		}
 		if a.k == svFloat {
 			if bt, ok := x.Type().Underlying().(*types.Basic); ok && bt.Info()&types.IsInteger != 0 {
 				a = intV(e.wrapInt(x.Type(), int64(a.f)))
@@ -735,7 +744,47 @@ func (e *ssaEval) binop(x *ssa.BinOp, a, b sv) sv {
 	if a.k == svString && b.k == svString && x.Op == token.ADD {
 		return sv{k: svString, s: a.s + b.s}
 	}
-	return term(x.Op.String(), a, b)
+	// arithmetic in a narrow integer type wraps: the width is part of the operator
+	return term(x.Op.String()+narrowTag(x.Type()), a, b)
+}
+
+// narrowTag: "u8", "i16", "u32" … for integer types narrower than 64 bits, "" otherwise.
+func narrowTag(t types.Type) string {
+	b, ok := t.Underlying().(*types.Basic)
+	if !ok {
+		return ""
+	}
+	switch b.Kind() {
+	case types.Uint8:
+		return "u8"
+	case types.Int8:
+		return "i8"
+	case types.Uint16:
+		return "u16"
+	case types.Int16:
+		return "i16"
+	case types.Uint32:
+		return "u32"
+	case types.Int32:
+		return "i32"
+	}
+	return ""
+}
+
+func intSize(t types.Type) int {
+	b, ok := t.Underlying().(*types.Basic)
+	if !ok || b.Info()&types.IsInteger == 0 {
+		return 0
+	}
+	switch b.Kind() {
+	case types.Uint8, types.Int8:
+		return 1
+	case types.Uint16, types.Int16:
+		return 2
+	case types.Uint32, types.Int32:
+		return 4
+	}
+	return 8
 }
 
 func cmpInt(a, b int64) int {
